@@ -68,42 +68,50 @@ Definition check_vertex (v : V) : bool :=
    else match d v with Some k => mask v && okb k | None => lo v =? 0 end) &&
   (if active v then match d v with Some dv => check_out_edges v dv | None => false end else true).
 
-(* hint = list of (pixel, predecessor) in an order in which every predecessor is a masked seed or
-   occurs earlier; supplied by the (untrusted) harness, verified here *)
-Definition hint_ok (R : list V) (vu : V * V) : bool :=
-  let v := fst vu in let u := snd vu in
-  if existsb (eqV u) R then
+(* hint = list of ((pixel, predecessor), label) in an order in which every (predecessor, label) is a
+   masked seed with its own label or occurs earlier; supplied by the (untrusted) harness, verified
+   here.  R collects pairs (v, l): "some mask path from a masked seed labelled l ends in v and
+   costs exactly d v".  v may itself be a seed (a zero-cost path through another seed). *)
+Definition eqVL (a b : V * Z) : bool := if eqV (fst a) (fst b) then snd a =? snd b else false.
+Definition hint_ok (R : list (V * Z)) (h : (V * V) * Z) : bool :=
+  let v := fst (fst h) in let u := snd (fst h) in let l := snd h in
+  if existsb (eqVL (u, l)) R then
     if existsb (eqV v) (nbrs u) then
-      if mask v && (lab v =? 0) then
+      if mask v then
         match d u, d v with
-        | Some du, Some dv => eqb dv (plus du (w u v)) && (lo v =? lo u)
+        | Some du, Some dv => eqb dv (plus du (w u v))
         | _, _ => false
         end
       else false
     else false
   else false.
 (* (vm_compute is call-by-value: the nested [if]s, not [&&], keep the cost test lazy) *)
-Definition grow (R : list V) (vu : V * V) : list V :=
-  if existsb (eqV (fst vu)) R then R else if hint_ok R vu then fst vu :: R else R.
-Definition seeds0 : list V := filter (fun s => (0 <? lab s) && mask s) verts.
-Definition chain_set (hint : list (V * V)) : list V := fold_left grow hint seeds0.
+Definition grow (R : list (V * Z)) (h : (V * V) * Z) : list (V * Z) :=
+  let vl := (fst (fst h), snd h) in
+  if existsb (eqVL vl) R then R else if hint_ok R h then vl :: R else R.
+Definition seeds0 : list (V * Z) :=
+  map (fun s => (s, lab s)) (filter (fun s => (0 <? lab s) && mask s) verts).
+Definition chain_set (hint : list ((V * V) * Z)) : list (V * Z) := fold_left grow hint seeds0.
 
-(* a hint computed without outside help: sweep all (pixel, neighbour) pairs until nothing is added *)
-Definition all_pairs : list (V * V) := flat_map (fun v => map (fun u => (v, u)) (nbrs v)) verts.
-Definition sweep (st : list V * list (V * V)) (vu : V * V) : list V * list (V * V) :=
-  if existsb (eqV (fst vu)) (fst st) then st
-  else if hint_ok (fst st) vu then (fst vu :: fst st, vu :: snd st) else st.
-Fixpoint auto_hint_go (fuel : nat) (st : list V * list (V * V)) : list (V * V) :=
+(* a hint computed without outside help: sweep all (pixel, neighbour) pairs with the pixel's own
+   output label until nothing is added (enough for outputs whose labels travel with the tight edges) *)
+Definition all_pairs : list ((V * V) * Z) :=
+  flat_map (fun v => map (fun u => ((v, u), lo v)) (nbrs v)) verts.
+Definition sweep (st : list (V * Z) * list ((V * V) * Z)) (h : (V * V) * Z) :=
+  let vl := (fst (fst h), snd h) in
+  if existsb (eqVL vl) (fst st) then st
+  else if hint_ok (fst st) h then (vl :: fst st, h :: snd st) else st.
+Fixpoint auto_hint_go (fuel : nat) (st : list (V * Z) * list ((V * V) * Z)) : list ((V * V) * Z) :=
   match fuel with
   | O => rev (snd st)
   | S f =>
       let st' := fold_left sweep all_pairs st in
       if (length (fst st') =? length (fst st))%nat then rev (snd st') else auto_hint_go f st'
   end.
-Definition auto_hint : list (V * V) := auto_hint_go (length verts) (seeds0, []).
+Definition auto_hint : list ((V * V) * Z) := auto_hint_go (length verts) (seeds0, []).
 
-Definition prop_check (hint : list (V * V)) : bool :=
+Definition prop_check (hint : list ((V * V) * Z)) : bool :=
   forallb check_vertex verts &&
   (let R := chain_set hint in
-   forallb (fun v => if (lab v =? 0) && is_some (d v) then existsb (eqV v) R else true) verts).
+   forallb (fun v => if (lab v =? 0) && is_some (d v) then existsb (eqVL (v, lo v)) R else true) verts).
 End Algebra.
